@@ -360,44 +360,115 @@ class CFG:
         :param kills: optional callable(stmt_or_cond_ast) -> iterable of
             extra name strings considered written by that node (e.g. attributes
             written by callees).
+
+        Status variables: a local that is only ever assigned constants (``outcome = 'crc'`` ... ``outcome = 'admitted'``,
+        ``ok = False``) carries, per constant, the facts that held where it was assigned; a later test of the variable
+        (``if outcome != 'admitted': return``) brings the facts of the remaining value(s) back.  This is what a guard that
+        was moved into a helper returning a status looks like after inlining.  The component is a map
+        var -> {constant: facts}; "var is one of these constants, and if it is c then facts hold".
         '''
         from .norm import cond_facts, written_names, mentions
         TOP = None
         state = {n.idx: TOP for n in self.nodes}
-        state[self.entry.idx] = frozenset()
+        state[self.entry.idx] = (frozenset(), frozenset())
         work = [self.entry]
         edge_facts = {}
+
+        def unpack(imps):
+            res = {}
+            for (var, crep, fs) in imps:
+                res.setdefault(var, {})[crep] = fs
+            return res
+
+        def pack(d):
+            return frozenset((var, crep, fs) for (var, m) in d.items() for (crep, fs) in m.items())
+
+        def merge_imps(a, b):
+            (da, db) = (unpack(a), unpack(b))
+            out = {}
+            for var in set(da) & set(db):
+                m = {}
+                for crep in set(da[var]) | set(db[var]):
+                    if crep in da[var] and crep in db[var]:
+                        m[crep] = da[var][crep] & db[var][crep]
+                    else:
+                        m[crep] = da[var].get(crep, db[var].get(crep))
+                out[var] = m
+            return pack(out)
+
+        def status_test(test, label):
+            ''' (var, predicate over the constant) for a test of a plain local against a constant / its truth value '''
+            if isinstance(test, ast.UnaryOp) and isinstance(test.op, ast.Not):
+                got = status_test(test.operand, not label)
+                return got
+            if isinstance(test, ast.Name):
+                return (test.id, (lambda c: bool(c)) if label else (lambda c: not bool(c)))
+            if isinstance(test, ast.Compare) and len(test.ops) == 1 and isinstance(test.left, ast.Name) and isinstance(test.comparators[0], ast.Constant):
+                k = test.comparators[0].value
+                op = test.ops[0]
+                if isinstance(op, (ast.Eq, ast.Is)):
+                    return (test.left.id, (lambda c: (c == k and type(c) is type(k)) or (c is k)) if label else (lambda c: not ((c == k and type(c) is type(k)) or (c is k))))
+                if isinstance(op, (ast.NotEq, ast.IsNot)):
+                    return (test.left.id, (lambda c: not ((c == k and type(c) is type(k)) or (c is k))) if label else (lambda c: (c == k and type(c) is type(k)) or (c is k)))
+            return None
+
         while work:
             cur = work.pop()
-            cur_in = state[cur.idx]
-            if cur_in is TOP:
+            cur_state = state[cur.idx]
+            if cur_state is TOP:
                 continue
+            (cur_in, imps_in) = cur_state
             out_base = cur_in
+            imps = imps_in
             if cur.kind in ('stmt', 'cond', 'handler') and cur.ast is not None:
                 written = set(written_names(cur.ast if cur.kind != 'cond' else cur.owner if isinstance(cur.owner, (ast.For, ast.With)) else cur.ast, cur.kind))
                 if kills:
                     written |= set(kills(cur.ast))
                 if written:
                     out_base = frozenset(f for f in out_base if not mentions(f[0], written))
+                    if imps:
+                        imps = frozenset((var, crep, frozenset(f for f in fs if not mentions(f[0], written))) for (var, crep, fs) in imps if var not in written)
+                # a constant assigned to a plain local: remember what holds here, under that value
+                st = cur.ast
+                if cur.kind == 'stmt' and isinstance(st, ast.Assign) and len(st.targets) == 1 and isinstance(st.targets[0], ast.Name) and isinstance(st.value, ast.Constant) \
+                        and isinstance(st.value.value, (str, int, bool, type(None), bytes)):
+                    imps = frozenset(x for x in imps if x[0] != st.targets[0].id) | {(st.targets[0].id, repr(st.value.value), out_base)}
                 out_base = out_base | frozenset(_gen_facts(cur))
                 if gens and cur.kind == 'stmt':
                     out_base = out_base | frozenset(gens(cur.ast))
             for (nxt, label) in cur.succ:
                 out = out_base
+                oimps = imps
                 if cur.kind == 'cond' and label in (True, False) and not isinstance(cur.owner, (ast.For, ast.With)):
                     key = (cur.idx, label)
                     if key not in edge_facts:
                         edge_facts[key] = frozenset(cond_facts(cur.ast, label))
                     out = out | edge_facts[key]
+                    if imps:
+                        got = status_test(cur.ast, label)
+                        if got is not None:
+                            (var, keep) = got
+                            d = unpack(imps)
+                            if var in d:
+                                import ast as _ast
+                                left = {crep: fs for (crep, fs) in d[var].items() if keep(_ast.literal_eval(crep))}
+                                if left:
+                                    common = None
+                                    for fs in left.values():
+                                        common = fs if common is None else (common & fs)
+                                    out = out | (common or frozenset())
+                                    d[var] = left
+                                    oimps = pack(d)
                 if label == 'exc':
                     # the statement may have been interrupted: keep only the inflow facts
                     out = frozenset(f for f in cur_in if f in out_base)
+                    oimps = imps_in if imps == imps_in else frozenset()
                 old = state[nxt.idx]
-                new = out if old is TOP else (old & out)
+                new = (out, oimps) if old is TOP else (old[0] & out, merge_imps(old[1], oimps))
                 if old is TOP or new != old:
                     state[nxt.idx] = new
                     work.append(nxt)
-        return {self.nodes[i]: (s if s is not None else frozenset()) for i, s in state.items()}, \
+        return {self.nodes[i]: (s[0] if s is not None else frozenset()) for i, s in state.items()}, \
                {i for i, s in state.items() if s is None}
 
 
